@@ -310,7 +310,19 @@ F8branches ==
          GFile(<<"d", "b">>, <<>>, <<>>, <<>>, <<Text(<<S("B"), P(EA)>>)>>),
          GFile(<<"d", "c">>, <<>>, <<>>, <<>>, <<Text(<<S("C")>>)>>),
          GFile(<<"g">>, <<>>, <<>>, <<>>, <<Text(<<S("G"), P(EB)>>)>>) >> : r \in RefsTo(MainSegs, "b") }
-F8 == F8imports \cup F8includes \cup F8branches
+(* script modules referred to by path: the bundle must link the module to the script registered under the resolved
+   path (the text shows a member of the module; the event handler carries the script's path) *)
+WxsRef(n, r, marker) == [n |-> n, src |-> r.src, key |-> r.key, members |-> << <<"n", VS(marker)>>, <<"f", VF("f2")>> >>]
+ScriptRefsTo(cur, target) ==
+    { Ref(cur, <<target>>, FALSE, ""), Ref(cur, <<".", target>>, FALSE, ".wxs"), Ref(cur, <<"d", target>>, TRUE, ".wxs"),
+      Ref(cur, <<"..", "d", target>>, FALSE, ""), Ref(cur, <<"x", "..", target>>, FALSE, ".wxs"), Ref(cur, <<"..", "..", "d", ".", target>>, TRUE, ""),
+      Ref(cur, <<"lib", "..", "d", target>>, TRUE, ".wxs"), Ref(cur, <<".", "d", target>>, TRUE, "") }
+F8scripts ==
+    { << GFile(MainSegs, <<>>, <<WxsRef("x", r, "U"), WxsRef("z", r2, "W")>>, <<>>,
+               <<Text(<<P(Mem(Id("x"), "n")), S("/"), P(Mem(Id("z"), "n"))>>),
+                 Elem("v", <<Attr("bind", "tap", EV(Mem(Id("x"), "f"))), Attr("plain", "p", EV(Call(Mem(Id("z"), "f"), <<EA>>)))>>, <<>>)>>) >> :
+        r \in ScriptRefsTo(MainSegs, "u"), r2 \in {Ref(MainSegs, <<"..", "w">>, FALSE, ".wxs"), Ref(MainSegs, <<".", "w">>, TRUE, "")} }
+F8 == F8imports \cup F8includes \cup F8branches \cup F8scripts
 
 -----------------------------------------------------------------------------
 Cases == CASE Family = "F8" -> F8 [] Family = "F7" -> F7 [] Family = "F1" -> F1 [] Family = "F2" -> F2 [] Family = "F3" -> F3 [] Family = "F4" -> F4
